@@ -95,9 +95,20 @@ class C11(ProtoSpec):
             if any(g.app is not None for g in mon.conns.values()):
                 evs.append(("split",))
             return evs
-        if n - mon.split_at <= self.d2:
+        if n - max(mon.split_at, mon.mark_at) <= self.d2:
             evs = self.driver.enabled(worlds[0], mon, mon.counters)
         return evs
+
+    def seeds(self):
+        """[] plus deep seeded prefixes (ending in the pseudo-event `mark`, from which the continuation bound counts):
+        (a) a mailbox that expired before the restart and is re-opened after it;
+        (b) after the restart two connections of one side are bound and one has gone again"""
+        P, E = P_E()
+        A0 = ("cbind", 0, "X", "A")
+        a = [A0, ("open", 0, "m"), ("add", 0, "p", "00", "i1"), ("drop", 0), ("tick", E + 2 * P), ("split",),
+             ("cbind", 1, "X", "A"), ("open", 1, "m"), ("mark",)]
+        b = [A0, ("open", 0, "m"), ("split",), ("cbind", 1, "X", "A"), ("cbind", 2, "X", "A"), ("drop", 1), ("mark",)]
+        return [[]] if not getattr(self, "deep", False) else [a, b]
 
     def project(self, k, ev, run):
         if ev[0] == "split":
@@ -108,6 +119,7 @@ class C11(ProtoSpec):
         m = ProtoSpec.make_monitor(self, worlds)
         m.n_events = 0
         m.split_at = None
+        m.mark_at = 0
         orig = m.observe
 
         def observe(ev, results, worlds_):
@@ -115,12 +127,34 @@ class C11(ProtoSpec):
             v = orig(ev, results, worlds_)
             if ev[0] == "split":
                 m.split_at = m.n_events
+            if ev[0] == "mark":
+                m.mark_at = m.n_events
             return v
         m.observe = observe
         return m
 
     def nontrivial(self, worlds, mon):
         return mon.split
+
+
+class C11Deep(C11):
+    """narrow alphabet from two deep seeded prefixes (see seeds())"""
+    deep = True
+
+    def configure(self, tier):
+        P, E = P_E()
+        X = "X"
+        self.cfg = dict(storage="file")
+        binds = [[(X, "A")], [(X, "A")], [(X, "A"), (X, "B")], [(X, "B")], [(X, "B")]]
+        self.driver = Driver(binds, names=(), mids=("m", "n"), msgs=(("p", "00", "i1"),),
+                             kinds=("bind", "open", "add", "drop"), ticks=(P, E + 2 * P), max_ticks=3, max_adds=1,
+                             max_drops=3, max_conns=4 if tier == "quick" else 5)
+        self.d1, self.d2 = 0, (5 if tier == "quick" else 7)
+        self.depth = self.d2
+
+    def deepen(self, k):
+        self.d2 += k
+        self.depth = self.d2
 
 
 RULE = ("lockstep product: the same event stream on two real servers; at the split point all connections are dropped, "
@@ -130,10 +164,12 @@ RULE = ("lockstep product: the same event stream on two real servers; at the spl
 
 
 def make_spec(tier, name=None):
-    return C11(tier)
+    return C11Deep(tier) if name == "c11-deep" else C11(tier)
 
 
 def run(pid, tier, seed, args):
     from .base_run import run_specs
     spec = make_spec(tier)
-    return run_specs(pid, tier, seed, args, [("c11", spec, spec.depth, 100 if tier == "quick" else 1500)], rule=RULE)
+    deep = make_spec(tier, "c11-deep")
+    b = 100 if tier == "quick" else 1500
+    return run_specs(pid, tier, seed, args, [("c11", spec, spec.depth, b), ("c11-deep", deep, deep.depth, b / 2)], rule=RULE)
